@@ -16,4 +16,23 @@ PROPS = {
         thorough=dict(budget_s=1500, profiles=[P("C01", 20000), P("C01", 6000, "deep")]),
         reach=["PollsMulti", "ShortReads", "ShortWrites"],
     ),
+    "C09": dict(
+        level="exploration",
+        rule="open-loop clients (one request every d ms, d below/equal/above the backend latency L) under a strictly fair, fault-free "
+             "schedule; oracle: reply i reaches the client within 3 rounds / 1 fake second of the round in which the proxy had been handed "
+             "the backend replies of requests 0..i; non-trivial = at least one request completed while a later one was already outstanding; "
+             "distinct = distinct proxy-visible event-sequence hash",
+        quick=dict(budget_s=70, profiles=[P("C09", 200)]),
+        thorough=dict(budget_s=900, profiles=[P("C09", 6000)]),
+        reach=["c09_completed_while_later_outstanding"],
+    ),
+    "C16": dict(
+        level="fault_enumeration",
+        rule="request timeout T in [50,800] ms; pipelines of 1-10 single/split requests, a subset of fragments stalls forever (~T) or answers "
+             "late (T+300..1500 ms); seeded schedules incl. proxy stalls; thorough additionally enumerates stalled position(s) x kind x "
+             "forever|late for pipelines <= 5; non-trivial = at least one fragment stalled/late; distinct = proxy-visible event-sequence hash",
+        quick=dict(budget_s=70, profiles=[P("C16", 300)]),
+        thorough=dict(budget_s=1200, profiles=[P("C16", 8000), P("C16", 0, enumerate=["enum:%d" % i for i in range(750)])]),
+        reach=["c16_stalled_fragments"],
+    ),
 }
